@@ -68,7 +68,7 @@ void prop(const Case& cs) {
     int v = static_cast<int>(cs.get("cv", 0) % nv);
     fam::P orig = fam::make(cs);
     fam::Bytes im = orig->bytes(0, v);
-    const bool order_free = orig->image_order_unspecified(v);
+    const bool order_free = orig->continuation_order_sensitive(v);
     const std::string fk = orig->finding_key();
     fam::P r = orig->from_bytes(im.data(), im.size());
     uint64_t cseed = static_cast<uint64_t>(cs.get("cseed", 1));
